@@ -1,10 +1,15 @@
 package main
 
-import "verifharness/engine"
+import (
+	"fmt"
+
+	"verifharness/engine"
+)
 
 func init() {
 	checks["abort"] = runAbort
 	checks["fault"] = runFault
+	checks["faultlog"] = func(rep *Report) { faultCrashTrace = true; runFault(rep) }
 	checks["resize"] = runResize
 	checks["space"] = runSpace
 }
@@ -61,6 +66,10 @@ func runAbort(rep *Report) {
 	}
 }
 
+// faultCrashTrace: the trace file receives the operation logs (with failing syncs) for the Lean
+// acceptor of the commit protocol's failure path instead of the engine traces
+var faultCrashTrace bool
+
 func runFault(rep *Report) {
 	tw, done := traceWriter()
 	defer done()
@@ -78,6 +87,13 @@ func runFault(rep *Report) {
 		tot.Plans += st.Plans
 		tot.FailedCommits += st.FailedCommits
 		tot.Recovered += st.Recovered
+		if faultCrashTrace {
+			if tw != nil {
+				fmt.Fprintf(tw, "program %d seed=%d\n%send\n", i, ps, s.CrashTrace())
+			}
+			collect(rep, s, i, ps, nil, len(rep.Failures) < 3)
+			continue
+		}
 		collect(rep, s, i, ps, tw, len(rep.Failures) < 3)
 	}
 	rep.Extra["fault"] = tot
